@@ -95,3 +95,64 @@ package cache
 //@   use old(tsumSplit(ca.Cache, 0, len(ca.Cache)-1, len(ca.Cache))) && old(tsumOne(ca.Cache, len(ca.Cache)-1))
 //@   use tsumSplit(ca.Cache, 0, len(ca.Cache)-1, len(ca.Cache)) && tsumOne(ca.Cache, len(ca.Cache)-1)
 //@   use tsumSame(ca.Cache, 0, len(ca.Cache)-1)
+
+// the scope index that holds key (or -1)
+//@ ghost scope(ca, key) = witness(i, 0, len(ca.Cache), in(key, ca.Cache[i]))
+
+// Update: same limit rule as Add; a rejected update restores the previous
+// value and size; an accepted one replaces exactly that symbol's bytes.
+//@ func (*Cache).Update
+//@   requires wf(ca) && int(ca.CacheSize) + len(value) < 4294967296
+//@   modifies ca.CacheUseSize, ca.Cache[scope(ca, key)][key]
+//@   ensures[C09,C08] @shape shape(ca) && sameScopes(ca)
+//@   ensures[C09,C08] @unique unique(ca)
+//@   ensures[C09,C08] @sized sized(ca)
+//@   ensures[C09,C08] @acct acct(ca)
+//@   ensures[C09,C08] @capped capped(ca)
+//@   ensures[C09,C05] @limit old(ca.Sizes[key]) > 0 && len(value) > int(old(ca.Sizes[key])) ==> result != nil
+//@   ensures[C09,C05] @missing !old(visible(ca, key)) ==> result != nil
+//@   ensures[C09] @capacity ca.CacheSize > 0 && old(total(ca)) - old(len(ca.Cache[scope(ca, key)][key])) + len(value) > int(ca.CacheSize) ==> result != nil
+//@   ensures[C09] @rejected result != nil ==> unchanged(ca.CacheUseSize) && total(ca) == old(total(ca))
+//@     && in(key, ca.Cache[old(scope(ca, key))]) == old(in(key, ca.Cache[scope(ca, key)]))
+//@     && ca.Cache[old(scope(ca, key))][key] == old(ca.Cache[scope(ca, key)][key])
+//@   ensures[C09,C05] @stored result == nil ==> in(key, ca.Cache[old(scope(ca, key))]) && ca.Cache[old(scope(ca, key))][key] == value
+//@   ensures[C09] @delta result == nil ==> total(ca) == old(total(ca)) - old(len(ca.Cache[scope(ca, key)][key])) + len(value)
+//@   use old(tsumSplit(ca.Cache, 0, scope(ca, key), len(ca.Cache))) && old(tsumSplit(ca.Cache, scope(ca, key), scope(ca, key) + 1, len(ca.Cache))) && old(tsumOne(ca.Cache, scope(ca, key)))
+//@   use tsumSplit(ca.Cache, 0, old(scope(ca, key)), len(ca.Cache)) && tsumSplit(ca.Cache, old(scope(ca, key)), old(scope(ca, key)) + 1, len(ca.Cache)) && tsumOne(ca.Cache, old(scope(ca, key)))
+//@   use tsumSame(ca.Cache, 0, old(scope(ca, key))) && tsumSame(ca.Cache, old(scope(ca, key)) + 1, len(ca.Cache))
+
+//@ func (*Cache).Get
+//@   requires shape(ca) && unique(ca)
+//@   ensures[C09,C05] @found result1 == nil ==> visible(ca, key) && in(key, ca.Cache[scope(ca, key)]) && result0 == ca.Cache[scope(ca, key)][key]
+//@   ensures[C09,C05] @missing result1 != nil ==> !visible(ca, key)
+
+// Reset keeps the first scope only and recomputes the used size from it.
+//@ func (*Cache).Reset
+//@   requires wf(ca)
+//@   modifies ca.Cache, ca.CacheUseSize
+//@   ensures[C09,C08,C05] @scopes len(ca.Cache) == 1 && ca.Cache[0] == old(ca.Cache[0])
+//@   ensures[C09,C08] @shape shape(ca)
+//@   ensures[C09,C08] @unique unique(ca)
+//@   ensures[C09,C08] @sized sized(ca)
+//@   ensures[C09,C08] @acct acct(ca)
+//@   ensures[C09,C08] @capped capped(ca)
+//@   ensures[C09] @released total(ca) == old(msum(ca.Cache[0]))
+//@   use old(tsumSplit(ca.Cache, 0, 1, len(ca.Cache))) && old(tsumOne(ca.Cache, 0))
+//@   use tsumOne(ca.Cache, 0)
+//@   loop 1 modifies ca.CacheUseSize
+//@   loop 1 invariant @members all[string](k, visited(k) ==> in(k, ca.Cache[0]))
+//@   loop 1 invariant @bytes int(ca.CacheUseSize) == vsum(ca.Cache[0]) % 4294967296
+
+//@ func (*Cache).Levels
+//@   requires ca != nil
+//@   ensures int(result) == len(ca.Cache)
+
+//@ func (*Cache).ReservedSize
+//@   requires ca != nil
+//@   ensures[C09,C05] @known result1 == nil ==> in(key, ca.Sizes) && result0 == ca.Sizes[key]
+//@   ensures[C09,C05] @unknown result1 != nil ==> !in(key, ca.Sizes)
+
+//@ func (*Cache).Last
+//@   requires ca != nil
+//@   modifies ca.LastValue
+//@   ensures result == old(ca.LastValue) && ca.LastValue == ""
